@@ -257,7 +257,7 @@ func extractC04(c *ctxT) {
 			{"precompileConvertERC20_nativeERC20", []string{"-tokenPair.IsNativeCoin()", "+tokenPair.IsNativeERC20()"}}}},
 	}
 	var sb strings.Builder
-	sb.WriteString("import FxVerif.Model.C04\nnamespace FxVerif.Gen.C04\nopen FxVerif.Model.Flows (Call)\nopen FxVerif.Model.C04 (BStep BGuard BExit RStep RGuard RExit Cmp CancelRule XStep Sig Ref)\n\n")
+	sb.WriteString("import FxVerif.Model.C04\nnamespace FxVerif.Gen.C04\nopen FxVerif.Model.Flows (Call)\nopen FxVerif.Model.C04 (BStep BGuard BExit RStep RGuard RExit Cmp CancelRule XStep Sig Ref FCall)\n\n")
 	facts := map[string]any{}
 	for _, f := range fns {
 		fd := c.findFunc(f.pkg, f.recv, f.name)
@@ -330,6 +330,7 @@ func extractC04(c *ctxT) {
 		}
 		sb.WriteString("\n")
 	}
+	c04Compose(c, &sb)
 	c04Batch(c, &sb)
 	c04ExecuteClaim(c, &sb)
 	sb.WriteString("end FxVerif.Gen.C04\n")
@@ -631,4 +632,72 @@ func c04ExecuteClaim(c *ctxT, sb *strings.Builder) {
 	}
 	sb.WriteString("-/\ndef executeClaim_steps : List XStep := " + leanList(steps) + "\n\n")
 	c.facts["C04.executeClaim_steps"] = steps
+}
+
+// ---------------------------------------------------------------------------------------------------------------
+// composition: which money-moving functions a composite function calls, in source order (`List FCall`); for the
+// outgoing pool also the expression whose amount is moved.
+var c04FCalls = map[string]string{
+	"DepositBridgeToken": ".depositBridgeToken", "WithdrawBridgeToken": ".withdrawBridgeToken", "ConversionCoin": ".conversionCoin",
+	"BridgeTokenToBaseCoin": ".bridgeTokenToBaseCoin", "BaseCoinToBridgeToken": ".baseCoinToBridgeToken",
+	"IBCCoinToBaseCoin": ".ibcCoinToBaseCoin", "BaseCoinToIBCCoin": ".baseCoinToIBCCoin", "Transfer": ".ibcTransfer",
+	"ConvertCoin": ".convertCoin", "BaseCoinToEvm": ".baseCoinToEvm", "transferIBCHandler": ".transferIBCHandler",
+	"IbcRefund": ".ibcRefund", "AddUnbatchedTx": ".addUnbatchedTx",
+}
+
+func c04CallOrder(fd *ast.FuncDecl) []string {
+	var res []string
+	if fd == nil || fd.Body == nil {
+		return res
+	}
+	ast.Inspect(fd.Body, func(n ast.Node) bool {
+		if ce, ok := n.(*ast.CallExpr); ok {
+			if se, ok := ce.Fun.(*ast.SelectorExpr); ok {
+				if v, ok := c04FCalls[se.Sel.Name]; ok {
+					res = append(res, v)
+				}
+			}
+		}
+		return true
+	})
+	return res
+}
+
+func c04Compose(c *ctxT, sb *strings.Builder) {
+	type fn struct{ pkg, recv, name, def string }
+	for _, f := range []fn{
+		{"x/crosschain/keeper", "Keeper", "BridgeTokenToBaseCoin", "bridgeTokenToBaseCoin_calls"},
+		{"x/crosschain/keeper", "Keeper", "BaseCoinToBridgeToken", "baseCoinToBridgeToken_calls"},
+		{"x/crosschain/keeper", "Keeper", "IBCCoinToEvm", "ibcCoinToEvm_calls"},
+		{"x/crosschain/keeper", "Keeper", "IBCCoinRefund", "ibcCoinRefund_calls"},
+		{"x/crosschain/keeper", "Keeper", "SendToFxExecuted", "sendToFxExecuted_calls"},
+		{"x/crosschain/keeper", "Keeper", "transferIBCHandler", "transferIBCHandler_calls"},
+		{"x/crosschain/keeper", "Keeper", "addToOutgoingPool", "addToOutgoingPool_calls"},
+		{"x/crosschain/precompile", "Keeper", "ibcTransfer", "precompileIbcTransfer_calls"},
+	} {
+		fd := c.findFunc(f.pkg, f.recv, f.name)
+		calls := c04CallOrder(fd)
+		where := "(function not found)"
+		if fd != nil {
+			where = c.pos(fd)
+		}
+		sb.WriteString("/-- money-moving calls of `" + f.name + "` in source order — " + where + " -/\n")
+		sb.WriteString("def " + f.def + " : List FCall := " + leanList(calls) + "\n\n")
+		c.facts["C04."+f.def] = calls
+	}
+	// addToOutgoingPool: the coin handed to BaseCoinToBridgeToken
+	arg := "(not found)"
+	if fd := c.findFunc("x/crosschain/keeper", "Keeper", "addToOutgoingPool"); fd != nil && fd.Body != nil {
+		ast.Inspect(fd.Body, func(n ast.Node) bool {
+			if ce, ok := n.(*ast.CallExpr); ok {
+				if se, ok := ce.Fun.(*ast.SelectorExpr); ok && se.Sel.Name == "BaseCoinToBridgeToken" && len(ce.Args) >= 2 {
+					arg = c04Space.ReplaceAllString(c.src(ce.Args[1]), "")
+				}
+			}
+			return true
+		})
+	}
+	sb.WriteString("/-- the coin `addToOutgoingPool` hands to `BaseCoinToBridgeToken`: `" + strings.ReplaceAll(arg, "-/", "- /") + "` -/\n")
+	sb.WriteString("def addToOutgoingPool_movesAmountPlusFee : Bool := " + leanBool(arg == "amount.Add(fee)" || arg == "fee.Add(amount)") + "\n\n")
+	c.facts["C04.addToOutgoingPool_arg"] = arg
 }
